@@ -32,6 +32,10 @@ func VerifSetFieldCapacityWithGW(grw float64, n int, w, porges []float64) []floa
 	return out
 }
 
+// VerifSetFieldCapacityWithGWOn calls setFieldCapacityWithGW on the given state (the harness compares the state
+// before and after the call with the translation of the function's source).
+func VerifSetFieldCapacityWithGWOn(g *GlobalVarsMain) { setFieldCapacityWithGW(g) }
+
 // VerifHydroPaths gives a path set in which only the two hydraulic parameter tables are set.
 func VerifHydroPaths(hypar, parcap string) *HFilePath {
 	return &HFilePath{hypar: hypar, parcap: parcap}
